@@ -443,6 +443,28 @@ func (x *X) evalCall(env *Env, e *ast.CallExpr) TV {
 			}
 			k := x.eval(env, e.Args[0])
 			return TV{S{"(select " + sv.V.(S).T + " " + k.V.(S).T + ")", SBool}, boolT}
+		case "rowis":
+			// rowis(s, t, i, val): the whole backing array of s now is the backing array t had in the old
+			// state with element i of t set to val (nothing else in it changed, beyond len and cap included)
+			if env.old == nil {
+				panic("contract: rowis() outside a postcondition or invariant")
+			}
+			stv := x.eval(env, e.Args[0])
+			a := stv.V.(Slice)
+			b := x.eval(env, e.Args[1]).V.(Slice)
+			i := x.eval(env, e.Args[2]).V.(S).T
+			val := x.eval(env, e.Args[3]).V.(S).T
+			el := stv.T.Underlying().(*types.Slice).Elem()
+			key := elemLoc(el, "a", "0").key
+			es := x.leafSort(el)
+			cur := x.heapCur(key, arr2Sort(es))
+			was := x.heapIn(env.old, key)
+			return TV{S{fmt.Sprintf("(= (select %s %s) (store (select %s %s) (+ %s %s) %s))", cur, a.Arr, was, b.Arr, b.Off, i, val), SBool}, boolT}
+		case "samearr":
+			// samearr(s, t): the two slices have the same backing array and start
+			a := x.eval(env, e.Args[0]).V.(Slice)
+			b := x.eval(env, e.Args[1]).V.(Slice)
+			return TV{S{fmt.Sprintf("(and (= %s %s) (= %s %s))", a.Arr, b.Arr, a.Off, b.Off), SBool}, boolT}
 		case "backed":
 			// backed(s, &p.f): slice s starts at element 0 of the array field f of object p
 			sl := x.eval(env, e.Args[0]).V.(Slice)
@@ -548,6 +570,11 @@ func (x *X) evalCall(env *Env, e *ast.CallExpr) TV {
 			ref := x.flatten(a.V)[0].T
 			if env.old == nil {
 				panic("contract: fresh() outside a postcondition")
+			}
+			if _, isSlice := a.V.(Slice); isSlice {
+				// a backing array: a positive identity that did not exist, or an array inside an object that did not exist
+				al := x.heapIn(env.old, "ALLOC")
+				return TV{S{fmt.Sprintf("(or (and (> %s 0) (not (select %s %s))) (and (< %s 0) (not (select %s (ia.owner %s)))))", ref, al, ref, ref, al, ref), SBool}, boolT}
 			}
 			return TV{S{fmt.Sprintf("(and (not (= %s 0)) (not (select %s %s)))", ref, env.old.heap["ALLOC"], ref), SBool}, boolT}
 		}
@@ -749,7 +776,12 @@ func (x *X) evalTouches(env *Env, e *ast.CallExpr, old *State) string {
 	if x.sc.paramName != "" {
 		panic("contract: touches() inside a quantifier")
 	}
+	// the listed objects are named in the state the frame is relative to (as where the frame is used)
+	saveSt := x.st
+	x.st = old.clone()
+	x.st.cond = saveSt.cond
 	ts := x.touchArgs(env, e)
+	x.st = saveSt
 	var refs, arrs []string
 	for _, r := range ts.refs {
 		refs = append(refs, r.term)
